@@ -938,6 +938,42 @@ def staged_containers(rng, n):
     return out
 
 
+def ms_bounds(rng, n):
+    """C06 (milestone at its dependency bound), C04: milestones whose bound comes from several nesting levels -- the same
+    predecessor named by the milestone itself and by its container with a different gap, on-start edges, forward and backward
+    (there the gap sits on the container of the successor)."""
+    out = []
+    for i in range(n):
+        G = rng.choice([3600, 1800])
+        start = datetime(2025, 6, 2)
+        alap = rng.random() < 0.4
+        p = Proj(start=start, G=G, length="+6w", alap=alap)
+        rs = [p.add_res("r%d" % k) for k in range(rng.randint(1, 2))]
+        half = G // 2
+        if not alap:
+            dev = p.add_task("dev", effort=G * rng.randint(2, 12) + rng.choice([0, half]), alloc=[rng.choice(rs)])
+            other = p.add_task("other", effort=G * rng.randint(1, 6), alloc=[rng.choice(rs)])
+            rel = p.add_task("rel", deps=[(dev, False, G * rng.choice([0, 4, 20]))])
+            if rng.random() < 0.5:
+                rel = p.add_task("stage", parent=rel, deps=[(other, rng.random() < 0.3, rng.choice([0, G]))])
+            p.add_task("tag", parent=rel, milestone=True, deps=[(dev, False, rng.choice([0, 0, G]))] if rng.random() < 0.7 else [])
+            p.add_task("ship", parent=rel, effort=G * rng.randint(1, 5), alloc=[rng.choice(rs)],
+                       deps=[(dev, False, 0)] if rng.random() < 0.5 else [])
+            p.add_task("note", milestone=True, deps=[(dev, True, rng.choice([0, G]))])          # on-start edge
+        else:
+            gate = p.add_task("gate", milestone=True)
+            prep = p.add_task("prep", effort=G * rng.randint(2, 8), alloc=[rng.choice(rs)], deps=[])
+            gate.deps.append((prep, False, rng.choice([0, G])))
+            roll = p.add_task("rollout", deps=[(gate, False, G * rng.choice([0, 6, 24]))])
+            go = p.add_task("go", parent=roll, effort=G * rng.randint(1, 6) + rng.choice([0, half]), alloc=[rng.choice(rs)],
+                            deps=[(gate, False, rng.choice([0, 0, G]))] if rng.random() < 0.7 else [])
+            go.end = start + timedelta(days=rng.randint(20, 30), hours=rng.choice([9, 13, 17]))
+            if rng.random() < 0.5:
+                p.add_task("mark", parent=roll, milestone=True, deps=[(go, False, 0)]).end = go.end + timedelta(hours=rng.choice([0, 24]))
+        out.append(("msb%04d" % i, p))
+    return out
+
+
 def teams_alts(rng, n):
     """C03: team allocations (same instants), alternatives (exactly one candidate set), sub-slot efforts."""
     out = []
